@@ -115,7 +115,7 @@ def solve(
                 if model is None:
                     break
                 atoms = frozenset(_atom(s) for s in model.symbols(atoms=True))
-                shown = frozenset(str(s) for s in model.symbols(shown=True))
+                shown = frozenset(str(s) for s in model.symbols(terms=True))  # what '#show term : body.' displays
                 res.models.append((atoms, _cost_key(model), shown))
                 if len(res.models) > max_models:
                     handle.cancel()
@@ -133,7 +133,8 @@ def project(models: list, voc: Optional[set], with_cost: bool, shown: bool = Fal
     out = []
     for atoms, cost, shw in models:
         if shown:
-            key = shw
+            # declared display: shown terms plus the atoms of '#show p/n.' signatures (voc)
+            key = shw | frozenset(a[2] for a in atoms if (a[0], a[1]) in (voc or ()))
         elif voc is None:
             key = frozenset(a[2] for a in atoms)
         else:
